@@ -819,7 +819,7 @@ P_boot(s, f) ==
 QuitReq == [cmd |-> "quit", name |-> "", lname |-> "", hasname |-> FALSE, mid |-> "", waiting |-> FALSE,
             cast |-> FALSE, pid |-> -1, signum |-> -1, children |-> FALSE, recursive |-> FALSE, childpid |-> -1,
             nb |-> 1, G |-> -1, nostop |-> FALSE, graceful |-> TRUE, sequential |-> FALSE, raw |-> FALSE,
-            start |-> FALSE, addnp |-> 1, addG |-> 1, addW |-> 0, addsing |-> FALSE, nopts |-> 1]
+            start |-> FALSE, addnp |-> 1, addG |-> 1, addW |-> 0, addsing |-> FALSE, nopts |-> 1, pattern |-> FALSE]
 
 Dispatch(s, f, ob) ==
   LET fn == s.fr[f].fn IN
